@@ -395,6 +395,17 @@ class NodeEvaluateImpl(NodeKernel):
         ctx.oblige("raises.only-an-uncaptured-user-failure-propagates-unchanged[C15]",
                    z3.And(z3.BoolVal(exc.origin == "callbacks.evaluate"), z3.Not(capture), self.gg(ctx, "err_writes") == 0),
                    kind="post-exceptional")
+        # a wrapper further out (try_except_, a keyed map with capture) may still capture this failure and let the run go on:
+        # the scheduler must be left as after any other evaluation -- fired events consumed, the next one armed
+        ev1 = self.ev.mem(ctx)
+        eff1 = self.G.get(ctx, "eff")
+        live = z3.And(self.started0, self.has_scheduler) if hasattr(self, "started0") else self.has_scheduler
+        ctx.oblige("raises.scheduler-tail-also-after-a-propagating-failure:no-stale-event,next-one-armed[C15 in later cycles the failing "
+                   "node is evaluated normally again, also under try_except; C18 pending set]",
+                   z3.Implies(live, z3.And(
+                       z3.ForAll([qt, qg], z3.Implies(sel2(ev1, qt, qg), qt > self.T)),
+                       z3.ForAll([qt, qg], z3.Implies(z3.And(sel2(ev1, qt, qg), qt < MAX_DT), eff1[self.node_index] <= qt)))),
+                   kind="post-exceptional")
 
     def matches_known(self, finding, ob, res):
         """F1 only covers the stale-arm entry state"""
